@@ -298,6 +298,11 @@ def _variants():
         V("memo-table-leaked", insert_stmt(PE, "Perm.get_perm", "return self", "return self._pattern_details()", "before"), "fire", "C01-M3"),
         V("new-object-state", insert_stmt(PE, "Perm.inverse", "result = [0] * len(self)", "self._inverse_calls = getattr(self, '_inverse_calls', 0) + 1", "before"), "undecided", note="unreviewed per-object state: neither accused nor passed"),
         V("scratch-buffer-on-object", [replace_stmt(PE, "Perm.occurrences_in", "occurrence_indices = [0] * n", "if getattr(self, '_scratch', None) is None:\n    self._scratch = [0] * n\noccurrence_indices = self._scratch")], "fire", "C01-M4"),
+        V("colours-roles-swapped", replace_expr(PE, "Perm.occurrences_in", "patt_colours[i] == self_colours[k]", "patt_colours[k] == self_colours[i]"), "fire", "C01-O2"),
+        V("colours-ignored-when-given", replace_expr(PE, "Perm.occurrences_in", "self_colours is None or patt_colours[i] == self_colours[k]", "self_colours is not None or patt_colours[i] == self_colours[k]"), "fire", "C01-O2"),
+        V("colours-or-bounds", replace_expr(PE, "Perm.occurrences_in", "compare_colours and lower_bound <= element <= upper_bound", "compare_colours or lower_bound <= element <= upper_bound"), "fire", "C01-O2"),
+        V("bounds-strict", replace_expr(PE, "Perm.occurrences_in", "lower_bound <= element <= upper_bound", "lower_bound < element <= upper_bound"), "fire", "C01-O2"),
+        V("colours-args-swapped", replace_stmt(PE, "Perm.occurrences_in", "self_colours, patt_colours = (None, None) if len(args) < 2 else args", "patt_colours, self_colours = (None, None) if len(args) < 2 else args"), "fire-or-undecided", "C01-O2"),
         V("search-nonstrict-recursion", replace_expr(PE, "Perm.occurrences_in", "occurrences(i + 1, k + 1)", "occurrences(i, k + 1)"), "fire", "C01-O1"),
         V("search-skips-position", replace_stmt(PE, "Perm.occurrences_in", "i, elements_remaining = (i + 1, elements_remaining - 1)", "i, elements_remaining = (i + 2, elements_remaining - 2)"), "fire", "C01-O1"),
         V("search-starts-at-1", replace_expr(PE, "Perm.occurrences_in", "occurrences(0, 0)", "occurrences(1, 0)"), "fire", "C01-O1"),
@@ -547,3 +552,67 @@ def run(ctx: Ctx) -> None:  # noqa: F811
 
 
 FLOORS["C01-M5"] = 1
+
+
+# ---------------------------------------------------------------------------- O2: acceptance test shape (colours)
+
+
+def rule_o2(ctx: Ctx) -> None:
+    """The acceptance test of the search is `colours match AND lower <= entry <= upper` on the entry at the
+    candidate position; colours are compared between the *target position i* and the *pattern position k*,
+    and are ignored exactly when no colouring was supplied.  (What the bounds are is value-level: not decided.)"""
+    from ..core import flow_env, subst_names
+    from ..skeleton import Env, T, show
+
+    occ = ctx.repo.need_method("Perm", "occurrences_in")
+    rec = list(occ.nested.values())[0]
+    i, k = rec.params
+    # colour unpacking:  self_colours, patt_colours = (None, None) if len(args) < 2 else args
+    va = occ.vararg
+    unpack = [st for st in occ.body if isinstance(st, ast.Assign) and isinstance(st.targets[0], ast.Tuple) and isinstance(st.value, ast.IfExp)]
+    if not unpack or va is None:
+        raise AnalysisError(f"{occ.where}: colour arguments not recognised")
+    sc, pc = [unparse(e) for e in unpack[0].targets[0].elts]
+    v = unpack[0].value
+    if not (unparse(v.body) == "(None, None)" and unparse(v.test) in (f"len({va}) < 2", f"len({va}) != 2") and unparse(v.orelse) == va):
+        ctx.violation("C01-O2", occ, unpack[0], f"colourings are taken as `{unparse(v)}`; expected (pattern colours, target colours) = args when both are supplied, otherwise none")
+        return
+    target = next((unparse(st.targets[0].elts[1]) for st in occ.body if isinstance(st, ast.Assign) and isinstance(st.targets[0], ast.Tuple) and isinstance(st.value, ast.Tuple)
+                   and len(st.value.elts) == 2 and unparse(st.value.elts[1]) == f"{occ.params[1]}.get_perm()"), None)
+    if target is None:
+        raise AnalysisError(f"{occ.where}: target permutation local not found")
+    loops = [st for st in rec.body if isinstance(st, ast.While)]
+    lp = loops[0]
+    accepts = [st for st in lp.body if isinstance(st, ast.If) and any(isinstance(n, (ast.Yield, ast.YieldFrom)) for n in ast.walk(st))]
+    if len(accepts) != 1:
+        raise AnalysisError(f"{rec.where}: acceptance branch not recognised")
+    env = {}
+    for st in lp.body:
+        if isinstance(st, ast.Assign) and isinstance(st.targets[0], ast.Name):
+            env[st.targets[0].id] = st.value
+    test = subst_names(accepts[0].test, env)
+    got = T(test, Env())
+    # locate the two bound names
+    names = [n.id for n in ast.walk(accepts[0].test) if isinstance(n, ast.Name)]
+    cmp = [n for n in ast.walk(test) if isinstance(n, ast.Compare) and len(n.ops) == 2]
+    if len(cmp) != 1:
+        ctx.violation("C01-O2", rec, accepts[0], "the acceptance test is not a two-sided bound test `lower <= entry <= upper` (conjoined with the colour test)")
+        return
+    lo, mid, hi = unparse(cmp[0].left), unparse(cmp[0].comparators[0]), unparse(cmp[0].comparators[1])
+    want = T(ast.parse(f"({sc} is None or {pc}[{i}] == {sc}[{k}]) and {lo} <= {target}[{i}] <= {hi}", mode="eval").body, Env())
+    if got == want and all(isinstance(o, ast.LtE) for o in cmp[0].ops):
+        ctx.ok("C01-O2", rec.where, f"accept iff (no colouring or colour of target position {i} == colour of pattern position {k}) and {lo} <= {target}[{i}] <= {hi}", accepts[0], rec)
+    else:
+        ctx.violation("C01-O2", rec, accepts[0], f"acceptance test is  {show(got)[:220]} ; expected  {show(want)[:220]}")
+    _ = (names, mid)
+
+
+_OLD_RUN4 = run
+
+
+def run(ctx: Ctx) -> None:  # noqa: F811
+    _OLD_RUN4(ctx)
+    ctx.run(rule_o2, ctx)
+
+
+FLOORS["C01-O2"] = 1
